@@ -11,12 +11,14 @@
      C01_flags_coincide (single flag = block-local flag under the guard)  C01_stmt_skeleton (round 2)
      C01_error_keeps_effects  C01_otherwise_else_refuted (the guard is needed)
      C01_compile_correct_partial (conjunction of the general stage lemmas, kept).
-   Outside the proved fragment (in_fragment / the AST): `+=` on a Float or text metric (target emitted
-   twice), decorators (inlined by the harness before this AST), x++ used as a value (no AST node),
-   constant folding and the checker itself (acceptance is tie (4) only). *)
-From V Require Import Lang.RefSem Lang.Codegen Lang.Vm Lang.Observe Lang.Wt
+   Round 4: x++/x-- as a value (EIncr) and `+=` on Float/text metrics (target emitted twice; index keys
+   must be effect free: pure_keys) are inside the theorem; decorators are inlined by Lang/Expand.v
+   (C01_compile_correct_surface; the correspondence runs both ties on expand of the generator's SURFACE
+   tree).  Still outside: constant folding, the promotion/ConvExpr insertion of the checker (Elab.v not
+   written: the generator's intended tree carries the promotions), parser and checker themselves. *)
+From V Require Import Lang.RefSem Lang.Codegen Lang.Vm Lang.Observe Lang.Wt Lang.Expand
   Proofs.C01Sim Proofs.C01Expr Proofs.C01Flags Proofs.C01Witness
-  Proofs.C01Store Proofs.C01Gen Proofs.C01Cases Proofs.C01Stmt Proofs.C01Simple Proofs.C01Line.
+  Proofs.C01Store Proofs.C01Gen Proofs.C01Cases Proofs.C01Stmt Proofs.C01Simple Proofs.C01Line Proofs.C01Expand.
 Local Open Scope Z_scope.
 
 (* ---- stage (a) ---- *)
@@ -161,6 +163,35 @@ Example C01_compile_correct_nonvacuous :
   wt wit_ok_prog = true /\ in_fragment wit_ok_prog = true /\ scoped_otherwise wit_ok_prog = true.
 Proof. repeat split; reflexivity. Qed.
 
+(* ---- decorators: the surface program, inlined by Lang/Expand.v ---- *)
+(* [expand] is the meaning docs/Language.md gives to `def` / `@deco` / `next` (the
+   decorated block takes the place of `next`), with patterns and strings numbered in
+   code-generation order.  Its result is a core program: no decorator construct is left
+   (by typing).  The correspondence runs BOTH ties on [expand sp] for the surface tree
+   the generator emits, so the generator's own inlining is not trusted. *)
+Theorem C01_compile_correct_surface :
+  forall (E : env) (sp : sprog) (p : prog) (file : bytes),
+    expand sp = Some p ->
+    wt p = true -> in_fragment p = true -> scoped_otherwise p = true ->
+    forall lines : list bytes,
+      obs_vm (vs_store (snd (run_lines E (codegen p) (map (mklogline file) lines) (init_vm (codegen p))))) =
+        obs_ref (fst (ref_lines E p file lines (init_rstore p))) /\
+      map class_vm (fst (run_lines E (codegen p) (map (mklogline file) lines) (init_vm (codegen p)))) =
+        map class_ref (snd (ref_lines E p file lines (init_rstore p))).
+Proof. intros E sp p file _. exact (compile_correct E p file). Qed.
+
+Example C01_expand_example :
+  expand wit_surface = Some wit_surface_core /\
+  wt wit_surface_core = true /\ in_fragment wit_surface_core = true /\ scoped_otherwise wit_surface_core = true.
+Proof. repeat split; vm_compute; reflexivity. Qed.
+
+(* numbering inside [expand]: the pattern and string tables only grow, so an index handed
+   out to an earlier occurrence stays valid in the final tables *)
+Theorem C01_expand_tables_grow :
+  forall (pats : list bytes),
+    (forall e s, grows s (snd (rexpr pats e s))) /\ (forall ks s, grows s (snd (rexprs pats ks s))).
+Proof. exact rexpr_grows. Qed.
+
 (* ---- errors keep the effects already made ---- *)
 Theorem C01_error_keeps_effects :
   (* VM: the state returned with Err is the one reached by the instructions executed before *)
@@ -223,6 +254,9 @@ Print Assumptions C01_stmt_skeleton.
 Print Assumptions C01_stmt.
 Print Assumptions C01_compile_correct.
 Print Assumptions C01_compile_correct_nonvacuous.
+Print Assumptions C01_compile_correct_surface.
+Print Assumptions C01_expand_example.
+Print Assumptions C01_expand_tables_grow.
 Print Assumptions C01_error_keeps_effects.
 Print Assumptions C01_otherwise_else_refuted.
 Print Assumptions C01_compile_correct_partial.
